@@ -793,3 +793,90 @@ Proof.
 Qed.
 
 End KernelTheorems.
+
+(* ------------------------------------------------------------------ *)
+(* rejections (any arithmetic instance) *)
+
+Section Rejections.
+Context {T : Type} (N : NumOps T).
+Variables (ie oe : T) (ec : bool).
+
+Lemma reject_rainfall P rainfall maxgap hstart sec vals hinit :
+  (rainfall < 0 \/ 1 < rainfall)%Z ->
+  c_var2h N ie oe ec P rainfall maxgap hstart sec vals hinit = VErr.
+Proof.
+  intros H. unfold c_var2h.
+  destruct (Z.ltb_spec rainfall 0); [reflexivity|].
+  destruct (Z.ltb_spec 1 rainfall); [reflexivity|lia].
+Qed.
+
+Lemma reject_period P rainfall maxgap hstart sec vals hinit :
+  ~ In P VAR2H_C_PERIODS ->
+  c_var2h N ie oe ec P rainfall maxgap hstart sec vals hinit = VErr.
+Proof.
+  intros H. unfold c_var2h.
+  destruct ((rainfall <? 0)%Z || (1 <? rainfall)%Z); [reflexivity|].
+  destruct (existsb (Z.eqb P) VAR2H_C_PERIODS) eqn:E; [exfalso|reflexivity].
+  apply existsb_exists in E as (x & Hx & Ex). apply Z.eqb_eq in Ex. now subst.
+Qed.
+
+(* the origin must not be earlier than the first stamp *)
+Lemma reject_origin P rainfall maxgap hstart t sec vals hinit :
+  (hstart < t)%Z ->
+  c_var2h N ie oe ec P rainfall maxgap hstart (t :: sec) vals hinit = VErr.
+Proof.
+  intros H. unfold c_var2h.
+  destruct ((rainfall <? 0)%Z || (1 <? rainfall)%Z); [reflexivity|].
+  destruct (negb (existsb (Z.eqb P) VAR2H_C_PERIODS)); [reflexivity|].
+  cbn [position]. destruct (Z.leb_spec t hstart); [lia|reflexivity].
+Qed.
+
+End Rejections.
+
+(* ------------------------------------------------------------------ *)
+(* the kernel of the pinned commit: a constant series of level 3 whose last
+   stamp is 10 minutes into a half-hour period gets the value 1 there *)
+
+Definition w_sec : list Z := [0; 3600; 7200; 7800]%Z.
+Definition w_vals : list (option R) := [Some 3; Some 3; Some 3; Some 3].
+Definition w_hinit : list (option R) := [None; None; None; None].
+
+Lemma w_pre : var2h_pre 1800 0 3600 w_sec.
+Proof.
+  unfold var2h_pre, w_sec. repeat split; try lia.
+  - intros k Hk. simpl in Hk. do 3 (destruct k as [|k]; [unfold tsec; simpl; lia|]). lia.
+  - unfold VAR2H_C_PERIODS. simpl. auto.
+  - unfold tsec; simpl; lia.
+  - exists 2%nat. unfold tsec; simpl. lia.
+Qed.
+
+Lemma w_valid j : (S j < 4)%nat -> ~ ivl_invalid_spec 432000 w_sec w_vals j.
+Proof.
+  intros Hj Hinv. unfold VAR2H_INVALID_EPS_R in *.
+  do 3 (destruct j as [|j];
+        [ destruct Hinv as [H|[H|[(x & E & L)|[(x & E & L)|H]]]];
+          unfold vval, tsec in *; simpl in *;
+          try discriminate; try (injection E as <-; lra); lia |]).
+  lia.
+Qed.
+
+Lemma old_kernel_partial_period_refuted :
+  exists out,
+    c_var2h_RN false 1800 0 432000 3600 w_sec w_vals w_hinit = VOk out /\
+    (tsec w_sec 3 < pend 1800 3600 2)%Z /\      (* period 2 extends past the data *)
+    nth 2 out None = Some 1.                      (* yet it is not missing, and is not 3 *)
+Proof.
+  destruct (kernel_ok false 1800 0 432000 3600 w_sec w_vals w_hinit w_pre) as (out & Hrun & _).
+  exists out. split; [exact Hrun|]. split; [unfold tsec, pend; simpl; lia|].
+  destruct (kernel_period false 1800 0 432000 3600 w_sec w_vals w_hinit w_pre out 2 Hrun
+              ltac:(simpl; lia)) as (k & Hb & Hn).
+  rewrite Hn.
+  destruct (hval_cases false 1800 0 432000 3600 w_sec w_vals (proj1 w_pre) ltac:(lia) _ _ Hb)
+    as [Hnone|Hsome].
+  - exfalso.
+    apply (hval_none_iff false 1800 0 432000 3600 w_sec w_vals (proj1 w_pre) ltac:(lia) _ _ Hb) in Hnone.
+    destruct Hnone as [[Hc _]|(j & _ & Hj & _ & Hi)]; [discriminate|].
+    apply ivl_invalid_iff in Hi. now apply (w_valid j Hj).
+  - rewrite Hsome. f_equal.
+    unfold area, psum, pc, piece, rv, vval, tsec, pstart, pend; simpl. lra.
+Qed.
